@@ -1,12 +1,20 @@
 use crate::Args;
 use crate::report::Report;
 
+pub mod c02;
+pub mod c03;
+pub mod c04;
 pub mod c09;
+pub mod common;
+pub mod xfer;
 pub mod c18;
 pub mod c20;
 
 pub fn dispatch(args: &Args) -> Report {
     match args.id.as_str() {
+        "C02" => c02::run(args),
+        "C03" => c03::run(args),
+        "C04" => c04::run(args),
         "C09" => c09::run(args),
         "C18" => c18::run(args),
         "C20" => c20::run(args),
